@@ -80,11 +80,21 @@ def body_sync(a0, a1, a2, b0, b1, b2):
         token, cls = "zz", "foreign"
     elif tok == 3:
         token, cls = mstore.expected_etag(kind, b"zz9"), "foreign"  # an id that names no object
-    else:
+    elif tok == 4:
         # the id of an existing non-tree object (a member's blob) - never issued as a token
         if not S_j:
             return (True, "pre-invalid")
         token, cls = mstore.expected_etag(kind, list(S_j.values())[0]), "nontree"
+    elif tok in (5, 6):
+        # a ref NAME of the collection's repository: resolves to something, but was never issued as a token
+        token, cls = ["HEAD", "refs/heads/master"][tok - 5], "nontree"
+    else:
+        # the id of the head COMMIT (the tokens the collection issues are tree ids)
+        chain = mstore.head_commits(_store.PATH)
+        if not chain:
+            return (True, "pre-invalid")
+        cid = chain[0][0]
+        token, cls = (cid.decode("ascii") if isinstance(cid, bytes) else cid), "nontree"
     body = ET.Element("{DAV:}sync-collection")
     t = ET.SubElement(body, "{DAV:}sync-token")
     if token is not None:
@@ -253,7 +263,8 @@ HARNESSES = [
     Harness("sync", h_sync, body_sync,
             classes=[("valid:changes", ("bare", 0)), ("valid:nochange", ("tree", 0)), ("empty:changes", ("bare", 1)),
                      ("foreign", ("tree", 2)), ("nontree", ("bare", 4))],
-            parts={"quick": [(k, t) for k in ("bare", "tree") for t in range(5)]}, bounds=_B, budget={"quick": 75, "thorough": 600},
+            parts={"quick": [(k, t) for k in ("bare", "tree") for t in range(5)] + [("bare", 5), ("bare", 7), ("tree", 6), ("tree", 7)],
+                   "thorough": [(k, t) for k in ("bare", "tree") for t in range(8)]}, bounds=_B, budget={"quick": 75, "thorough": 600},
             describe="REPORT sync-collection from S_i's token at state S_j: replica law, nothing outside the "
                      "difference, token = tree id of S_j; empty token = full membership; foreign / non-tree token = error",
             encodes=["xandikos.sync.SyncCollectionReporter.report", "xandikos.web.StoreBasedCollection.iter_differences_since",
